@@ -6,24 +6,30 @@
    control layer on top of SchedModel (C01.v): `base l` is the SchedModel state, every action is a SchedModel action (proj)
    plus an update of the loop's control state.  n workers (threads 0..n-1), any number of other threads, coroutines and
    pushers; `params`: push_first (true = the code: global.push THEN eventfd write; false = the wrong order of seeded
-   change C01-3), work_steal (the cargo feature), cfg_tmo (config().get_timeout_ns()).
+   change C01-3), work_steal (the cargo feature), cfg_tmo (config().get_timeout_ns()), budgeted / budget / interval
+   (true, RUN_BUDGET = 256, GLOBAL_INTERVAL = 64 = the code as it is since fix e723520, finding F34: run_queued_tasks runs at
+   most `budget` coroutines per call and looks at the global queue every `interval` of them, select returns Some(0) while
+   the local queue is not empty; budgeted = false: the loop before that fix, kept for the refuted statements).
+   `Pcur t` = the code as it is, `Pold t` = before the fix, `Pwrong t` = eventfd write before the push.
    `LReach P n l`: l is reachable by any schedule of workers, pushers, coroutine code, I/O events, timers and clock ticks.
    Ghost counters: npop w (local.pop calls of worker w = iterations of 'work), ncoll w (completed collect_global calls),
    nsel w (completed select calls = rounds of the loop), ngrab c / ntake c (how often c was taken out of a global / a local
    queue).
 
    WHAT IS ASSUMED (the hypotheses of the bounds, not proved): the worker thread keeps taking steps until it has completed
-   the stated number of local.pop calls / rounds (OS fairness for runnable threads, and - see the refuted statements - that
-   run_queued_tasks returns at all); the spmc / mpsc queues are the atomic FIFOs of C03 / C04; sequential consistency.
+   the stated number of local.pop calls / rounds (OS fairness for runnable threads; coroutines are cooperative: a body that
+   never yields keeps its worker); the spmc / mpsc queues are the atomic FIFOs of C03 / C04; sequential consistency.
 
-   REFUTED on the faithful model (potential defects of `may`, replayed on the real runtime, see props/C01.json):
-   a coroutine in a global queue is NOT popped within any bounded number of iterations of its worker's 'work loop, and a
-   coroutine made runnable by the I/O timeout handler waits for the next I/O timer. *)
+   REFUTED on the faithful model of the loop BEFORE fix e723520 (found by this model, replayed on the real runtime, repaired:
+   finding F34): a coroutine in a global queue was NOT popped within any bounded number of iterations of its worker's 'work
+   loop, and a coroutine made runnable by the I/O timeout handler waited for the next I/O timer.  For the loop as it is the
+   corresponding statements are theorems (section (b')). *)
 From Coq Require Import List Arith ZArith NArith Bool.
 Import ListNotations.
 Require Import MayV.Rt.SchedModel MayV.Rt.SchedInv MayV.Rt.SchedPresP MayV.Rt.SchedThm.
-Require Import MayV.Rt.SchedLoopModel MayV.Rt.SchedLoopInv MayV.Rt.SchedLoopStruct MayV.Rt.SchedLoopThm MayV.Rt.SchedLoopLive
-  MayV.Rt.SchedLoopRounds MayV.Rt.SchedLoopEnabled MayV.Rt.SchedLoopTie MayV.Rt.SchedLoopRefute MayV.Rt.SchedLoopRuns.
+Require Import MayV.Rt.SchedLoopModel MayV.Rt.SchedLoopInv MayV.Rt.SchedLoopStruct MayV.Rt.SchedLoopSleep MayV.Rt.SchedLoopThm
+  MayV.Rt.SchedLoopLive MayV.Rt.SchedLoopRounds MayV.Rt.SchedLoopBudget MayV.Rt.SchedLoopEnabled MayV.Rt.SchedLoopTie
+  MayV.Rt.SchedLoopRefute MayV.Rt.SchedLoopRuns.
 
 (* ---------------------------------------------------------------- (c) the loop model is a restriction of SchedModel *)
 (* every action of the worker-loop model performs exactly one SchedModel action on the coroutine state, or none *)
@@ -177,21 +183,30 @@ Theorem C01_global_collect_bound :
 Proof. exact global_collect_bound. Qed.
 Print Assumptions C01_global_collect_bound.
 
-(* ... and with work_steal every round of the loop (select call) completes a collect_global: two round ends later one has *)
+(* ... and with work_steal every round of the loop (select call) completes a collect_global - before the fix because
+   run_queued_tasks returned only through `local.pop() = None -> collect_global`, with the budget because 1 <= interval <
+   budget (coll_ok) -: two round ends later one has *)
 Theorem C01_two_rounds_complete_a_collect :
-  forall P n w tr, work_steal P = true -> forall l l', LReach P n l -> lruns P l tr = Some l' ->
+  forall P n w tr, work_steal P = true -> coll_ok P -> forall l l', LReach P n l -> lruns P l tr = Some l' ->
   nsel l w + 2 <= nsel l' w -> ncoll l w < ncoll l' w.
 Proof. exact round_collects. Qed.
 Print Assumptions C01_two_rounds_complete_a_collect.
 
-(* THE bound in rounds: a coroutine in the global or in the local queue of worker w has been taken out of w's LOCAL queue -
-   by w, which resumes it next, or by a thief - when w has completed two more rounds of its loop.  The hypothesis `w
-   completes two more rounds` is what remains assumed (worker thread keeps running AND run_queued_tasks returns). *)
-Theorem C01_queued_coroutine_taken_within_two_rounds :
-  forall P n w c tr l l', work_steal P = true -> LReach P n l -> w < n -> lruns P l tr = Some l' ->
+Theorem C01_global_queue_collected_within_two_rounds :
+  forall P n w c tr l l', work_steal P = true -> coll_ok P -> LReach P n l -> lruns P l tr = Some l' ->
+  In c (gq (base l) w) -> nsel l w + 2 <= nsel l' w -> ngrab l c < ngrab l' c.
+Proof. exact global_round_bound. Qed.
+Print Assumptions C01_global_queue_collected_within_two_rounds.
+
+(* the loop BEFORE the fix (budgeted = false), for the record: run_queued_tasks returned only with an empty local queue, so a
+   coroutine in the global or in the local queue of w had been taken out of w's local queue when w had completed two more
+   rounds - IF it completed them: that was the flaw (refuted statements below).  With the budget a round may end with a
+   non-empty local queue: the bounds of the code as it is are (b') *)
+Theorem C01_old_loop_queued_coroutine_taken_within_two_rounds :
+  forall P n w c tr l l', work_steal P = true -> budgeted P = false -> LReach P n l -> w < n -> lruns P l tr = Some l' ->
   In c (gq (base l) w) \/ In c (lq (base l) w) -> nsel l w + 2 <= nsel l' w -> ntake l c < ntake l' c.
 Proof. exact queued_coroutine_taken_within_two_rounds. Qed.
-Print Assumptions C01_queued_coroutine_taken_within_two_rounds.
+Print Assumptions C01_old_loop_queued_coroutine_taken_within_two_rounds.
 
 (* what STEALING adds: the thief v (in its steal ring: its own local queue was empty) holds the stolen coroutine in its batch;
    every later step keeps it there, or has put it into v's local queue (where the bounds above apply to v), or v is about to
@@ -205,9 +220,49 @@ Print Assumptions C01_steal_takes_into_the_thiefs_batch.
 
 Theorem C01_stolen_coroutine_is_queued_or_resumed :
   forall P n l a l' v c, LReach P n l -> v < n -> lstep P l a = Some l' -> StS l v c ->
-  StS l' v c \/ In c (lq (base l') v) \/ (wpc l' v = PRes RRun /\ hand (base l') v = [c]).
+  StS l' v c \/ In c (lq (base l') v) \/ (wpc l' v = PRes RSt /\ hand (base l') v = [c]).
 Proof. exact stolen_step. Qed.
 Print Assumptions C01_stolen_coroutine_is_queued_or_resumed.
+
+(* ---------------------------------------------------------------- (b') the code as it is: budget, interval, has_local_tasks *)
+(* a worker never blocks in epoll_wait over a non-empty local queue ... *)
+Theorem C01_sleeping_worker_has_empty_local_queue :
+  forall P n l w, budgeted P = true -> LReach P n l -> wpc l w = PSleep -> lq (base l) w = [].
+Proof. exact sleeping_worker_has_empty_local_queue. Qed.
+Print Assumptions C01_sleeping_worker_has_empty_local_queue.
+
+(* ... because select is left with next_expire = 0 while the local queue is not empty: the next epoll_wait only polls and the
+   worker goes on to run_queued_tasks at once *)
+Theorem C01_nonempty_local_queue_only_polls :
+  forall P n l w, budgeted P = true -> LReach P n l -> w < n -> wpc l w = PWait -> lq (base l) w <> [] ->
+  tmo l w = Some 0%N /\
+  exists l', lstep P l (LPoll w false) = Some l' /\ wpc l' w = PEvs (evfd l w) /\ base l' = base l.
+Proof. exact nonempty_local_queue_only_polls. Qed.
+Print Assumptions C01_nonempty_local_queue_only_polls.
+
+(* quiescence for the code as it is: EVERY run queue of every worker is empty and nothing is held: no queued coroutine is left
+   behind by sleeping workers *)
+Theorem C01_quiescent_all_queues_empty :
+  forall P n l, push_first P = true -> budgeted P = true -> LReach P n l -> LQuiescent n l ->
+  forall w, w < n -> gq (base l) w = [] /\ lq (base l) w = [] /\ hand (base l) w = [].
+Proof. exact quiescent_all_queues_empty. Qed.
+Print Assumptions C01_quiescent_all_queues_empty.
+
+(* `since l w` = run_coroutine calls of worker w (after local.pop) since its call of run_queued_tasks started or it completed a
+   collect_global, whichever is later: never more than `interval`.  I.e. a coroutine in the global queue of w is collected
+   (C01_global_collect_bound) after at most `interval` further run_coroutine calls of w, unless w returns to select first -
+   where the pending eventfd (C01_global_queue_wake_coming) makes it collect, or the next call does (1 <= interval < budget:
+   every call of run_queued_tasks completes a collect_global: C01_two_rounds_complete_a_collect with coll_ok) *)
+Theorem C01_at_most_interval_runs_between_collects :
+  forall P n l w, budgeted P = true -> 1 <= interval P <= budget P -> LReach P n l -> since l w <= interval P.
+Proof. exact at_most_interval_runs_between_collects. Qed.
+Print Assumptions C01_at_most_interval_runs_between_collects.
+
+Theorem C01_budgeted_round_completes_a_collect :
+  forall P n w tr l l', work_steal P = true -> budgeted P = true -> 1 <= interval P < budget P ->
+  LReach P n l -> lruns P l tr = Some l' -> nsel l w + 2 <= nsel l' w -> ncoll l w < ncoll l' w.
+Proof. exact budgeted_round_collects. Qed.
+Print Assumptions C01_budgeted_round_completes_a_collect.
 
 (* the loop never blocks by itself: at every control point other than `blocked in epoll_wait` (see (a)) and `inside
    run_coroutine with a frame on the stack` (the coroutine's own code: cooperative) the worker has an enabled action *)
@@ -222,15 +277,15 @@ Print Assumptions C01_worker_loop_never_blocks.
 (* eventfd write BEFORE the push (seeded change C01-3): the no-lost-wake-up statement is false.  Witness: the worker reacts to
    the eventfd, finds its global queue empty and goes back into epoll_wait; the push lands afterwards *)
 Theorem C01_no_lost_wakeup_wake_before_push_refuted :
-  forall t, ~ (forall l w, LReach (Pwrong t) 1 l -> wpc l w = PSleep -> gq (base l) w <> [] ->
+  forall p, ~ (forall l w, LReach (Pwrong (Npos p)) 1 l -> wpc l w = PSleep -> gq (base l) w <> [] ->
                            evfd l w = true \/ pusher_in_flight l w).
 Proof. exact wake_before_push_loses_the_wakeup. Qed.
 Print Assumptions C01_no_lost_wakeup_wake_before_push_refuted.
 
 Theorem C01_wake_before_push_witness :
-  forall t, exists l, LReach (Pwrong t) 1 l /\
+  forall p, exists l, LReach (Pwrong (Npos p)) 1 l /\
   wpc l 0 = PSleep /\ gq (base l) 0 = [1] /\ evfd l 0 = false /\ owed l 0 = 0 /\ anon l 0 = 0 /\ pre l 0 = 0 /\
-  tpc (base l) 1 = Idle /\ stk (base l) 1 = [] /\ dl l 0 = Some (rnd t) /\ now l = 0%N.
+  tpc (base l) 1 = Idle /\ stk (base l) 1 = [] /\ dl l 0 = Some (rnd (Npos p)) /\ now l = 0%N.
 Proof. exact wake_before_push_witness. Qed.
 Print Assumptions C01_wake_before_push_witness.
 
@@ -242,32 +297,33 @@ Theorem C01_wake_before_push_witness_without_work_steal :
 Proof. exact wake_before_push_witness_nosteal. Qed.
 Print Assumptions C01_wake_before_push_witness_without_work_steal.
 
-(* THE CODE AS IT IS (potential defect of may, found by this model): "a coroutine pushed to a global queue is popped within a
-   bounded number of iterations of its worker's loop" is false for every bound B: while the local queue never runs empty (one
-   coroutine that keeps yielding is enough) the 'work loop of run_queued_tasks neither calls collect_global nor returns to
-   select, although the eventfd is pending all the time and every thread keeps taking steps *)
-Theorem C01_global_queue_bounded_by_worker_iterations_refuted :
-  forall t B, ~ (forall l l' tr c w, LReach (Pcur t) 1 l -> lruns (Pcur t) l tr = Some l' -> In c (gq (base l) w) ->
+(* THE LOOP BEFORE FIX e723520 (defect of may found by this model, finding F34, repaired): "a coroutine pushed to a global queue
+   is popped within a bounded number of iterations of its worker's loop" was false for every bound B: while the local queue
+   never ran empty (one coroutine that keeps yielding is enough) the 'work loop of run_queued_tasks neither called
+   collect_global nor returned to select, although the eventfd was pending all the time and every thread kept taking steps *)
+Theorem C01_old_loop_global_queue_bounded_by_worker_iterations_refuted :
+  forall t B, ~ (forall l l' tr c w, LReach (Pold t) 1 l -> lruns (Pold t) l tr = Some l' -> In c (gq (base l) w) ->
                    npop l w + B <= npop l' w -> ngrab l c < ngrab l' c).
 Proof. exact global_queue_not_bounded_by_pops. Qed.
-Print Assumptions C01_global_queue_bounded_by_worker_iterations_refuted.
+Print Assumptions C01_old_loop_global_queue_bounded_by_worker_iterations_refuted.
 
-Theorem C01_global_queue_starvation_witness :
-  forall t k, exists l l', LReach (Pcur t) 1 l /\ lruns (Pcur t) l (rep k cycle) = Some l' /\
+Theorem C01_old_loop_global_queue_starvation_witness :
+  forall t k, exists l l', LReach (Pold t) 1 l /\ lruns (Pold t) l (rep k cycle) = Some l' /\
   In 2 (gq (base l) 0) /\ In 2 (gq (base l') 0) /\ evfd l' 0 = true /\
   npop l' 0 = npop l 0 + k /\ ngrab l' 2 = 0 /\ ncoll l' 0 = ncoll l 0 /\ nsel l' 0 = nsel l 0.
 Proof. exact global_queue_starves. Qed.
-Print Assumptions C01_global_queue_starvation_witness.
+Print Assumptions C01_old_loop_global_queue_starvation_witness.
 
-(* THE CODE AS IT IS (potential defect of may, found by this model): "a sleeping worker with a non-empty queue is woken within
-   the configured poll timeout" is false: the I/O timeout handler runs after run_queued_tasks; what it makes runnable locally
-   sleeps, with no wake-up under way, for the time T to the next I/O timer - for every T, whatever cfg_tmo is *)
-Theorem C01_local_queue_wait_bounded_by_poll_timeout_refuted :
-  forall t T, exists l, LReach (Pcur t) 1 l /\
+(* THE LOOP BEFORE FIX e723520 (defect of may found by this model, finding F34, repaired): "a sleeping worker with a non-empty
+   queue is woken within the configured poll timeout" was false: the I/O timeout handler runs after run_queued_tasks; what
+   it made runnable locally slept, with no wake-up under way, for the time T to the next I/O timer - for every T > 0,
+   whatever cfg_tmo is *)
+Theorem C01_old_loop_local_queue_wait_bounded_by_poll_timeout_refuted :
+  forall t T, exists l, LReach (Pold t) 1 l /\
   wpc l 0 = PSleep /\ lq (base l) 0 = [1] /\ gq (base l) 0 = [] /\ evfd l 0 = false /\ owed l 0 = 0 /\ anon l 0 = 0 /\
-  dl l 0 = Some (rnd T) /\ now l = 0%N /\ tmo l 0 = Some T.
+  dl l 0 = Some (rnd (Npos T)) /\ now l = 0%N /\ tmo l 0 = Some (Npos T).
 Proof. exact local_queue_wait_not_bounded_by_poll_timeout. Qed.
-Print Assumptions C01_local_queue_wait_bounded_by_poll_timeout_refuted.
+Print Assumptions C01_old_loop_local_queue_wait_bounded_by_poll_timeout_refuted.
 
 (* ---------------------------------------------------------------- non-vacuity: concrete runs (Rt/SchedLoopRuns.v) *)
 (* hypotheses of the no-lost-wake-up theorem: first epoll_wait (no timeout), global queue [1], the pusher at its wakeup call *)
@@ -295,3 +351,24 @@ Example C01_run_local_queue_pop : let l := lafter P10 1 runL_yielded in
   LReach P10 1 l /\ lq (base l) 0 = [] ++ 1 :: [] /\ wpc l 0 = PRun /\
   exists l', lruns P10 l [LPop 0] = Some l' /\ npop l 0 + length (@nil nat) < npop l' 0 /\ ntake l 1 < ntake l' 1.
 Proof. exact runL_local. Qed.
+
+(* the constants of the code satisfy the premises of the budget theorems *)
+Example C01_constants_of_the_code : forall t,
+  budgeted (Pcur t) = true /\ work_steal (Pcur t) = true /\ push_first (Pcur t) = true /\
+  1 <= interval (Pcur t) < budget (Pcur t) /\ coll_ok (Pcur t).
+Proof. exact cur_constants. Qed.
+
+(* the two schedules of the refuted statements on the loop as it is: after 64 runs of the yielding coroutine the worker
+   collects its global queue, the starved coroutine runs; the old cycle is no longer a run of the model *)
+Example C01_run_starvation_schedule_on_the_repaired_loop : let l := lafter P10 1 run_starve_fixed in
+  LReach P10 1 l /\ stk (base l) 0 = [FRun 2] /\ lq (base l) 0 = [1] /\ gq (base l) 0 = [] /\ ngrab l 2 = 1 /\ ntake l 2 = 1 /\
+  npop l 0 = 66 /\ bud l 0 = 191 /\ ncoll l 0 = 2.
+Proof. exact starve_fixed_state. Qed.
+
+Example C01_run_old_starvation_cycle_is_cut : lruns P10 (linit 1) (run_starve ++ rep 64 cycle) = None.
+Proof. exact starve_cycle_breaks. Qed.
+
+(* the coroutine made runnable by the I/O timeout handler runs at once (model time still 0), not at the next I/O timer (10 s) *)
+Example C01_run_io_timer_schedule_on_the_repaired_loop : let l := lafter P10 1 run_timer_fixed in
+  LReach P10 1 l /\ stk (base l) 0 = [FRun 1] /\ now l = 0%N /\ tmo l 0 = Some 0%N /\ wpc l 0 = PCo RRun.
+Proof. exact timer_fixed_state. Qed.
